@@ -1,6 +1,19 @@
 package c19
 
 import (
+	"encoding/json"
+	"os"
+
+	wasmtypes "github.com/CosmWasm/wasmd/x/wasm/types"
+	govtypes "github.com/cosmos/cosmos-sdk/x/gov/types"
+
+	"github.com/osmosis-labs/osmosis/osmoutils/cosmwasm"
+	"github.com/osmosis-labs/osmosis/v31/app/apptesting"
+	cwmsg "github.com/osmosis-labs/osmosis/v31/x/cosmwasmpool/cosmwasm/msg"
+	"github.com/osmosis-labs/osmosis/v31/x/cosmwasmpool/cosmwasm/msg/transmuter"
+	cwmodel "github.com/osmosis-labs/osmosis/v31/x/cosmwasmpool/model"
+	cwpooltypes "github.com/osmosis-labs/osmosis/v31/x/cosmwasmpool/types"
+
 	"context"
 	"fmt"
 	"sort"
@@ -45,6 +58,10 @@ type Config struct {
 	// BootGauges: number of paying epochs of three lock gauges created at genesis with one and the same start time (0 = not
 	// created): gauges that share a start time share one reference list, whose order changes when one of them finishes
 	BootGauges [3]int
+	// Alloyed: a CosmWasm transmuter (v3, alloyed asset) pool over uion/usdc is created at genesis and registered for taker-fee
+	// revenue sharing, with governance-set share agreements on both denoms: the pool manager keeps the agreements and the
+	// alloyed composition in in-memory caches that a restarted or imported node rebuilds from the store
+	Alloyed bool
 }
 
 var splits = [][3]string{{"1", "0", "0"}, {"0.5", "0.3", "0.2"}, {"0.3", "0.3", "0.4"}, {"0", "0", "1"}, {"0.67", "0.33", "0"}, {"0.4", "0.4", "0.2"}}
@@ -59,6 +76,7 @@ func GenConfig(rt *rapid.T) Config {
 		DenomFee:       rapid.Bool().Draw(rt, "denomFee"),
 		CommunityDenom: rapid.SampledFrom([]string{"", "usdc", "uosmo"}).Draw(rt, "communityDenom"),
 		Uptimes:        rapid.IntRange(1, 3).Draw(rt, "uptimes"),
+		Alloyed:        rapid.IntRange(0, 2).Draw(rt, "alloyedPool") == 0,
 		BootGauges:     rapid.SampledFrom([][3]int{{0, 0, 0}, {1, 3, 3}, {3, 1, 3}, {1, 1, 3}, {2, 1, 2}, {1, 2, 3}, {3, 3, 3}}).Draw(rt, "bootGauges"),
 	}
 }
@@ -171,6 +189,9 @@ func Bootstrap(cfg Config) func(n *Node, ctx sdk.Context) {
 			for _, i := range []int{2, 3} {
 				run(lockuptypes.NewMsgLockTokens(Actor(i), time.Hour, sdk.NewCoins(coin("usdc", 2_000_000+int64(i)))))
 			}
+		}
+		if cfg.Alloyed {
+			bootstrapAlloyedPool(n, ctx, run)
 		}
 		for i, ep := range cfg.BootGauges {
 			if ep > 0 {
@@ -544,6 +565,10 @@ func GenMsg(rt *rapid.T, n *Node, v *view, a int) (kind string, msg sdk.Msg, ok 
 			for i := range ids {
 				rs = append(rs, pmtypes.SwapAmountInRoute{PoolId: ids[i], TokenOutDenom: outs[i]})
 			}
+			// the same swap is also accepted by the (older) gamm message, which reaches the router through the gamm keeper
+			if rapid.IntRange(0, 2).Draw(rt, "viaGamm") == 0 {
+				return kind, &gammtypes.MsgSwapExactAmountIn{Sender: me.String(), Routes: rs, TokenIn: coin(from, amt), TokenOutMinAmount: osmomath.OneInt()}, true
+			}
 			return kind, &pmtypes.MsgSwapExactAmountIn{Sender: me.String(), Routes: rs, TokenIn: coin(from, amt), TokenOutMinAmount: osmomath.OneInt()}, true
 		case "swapOut":
 			// exact-out routes are stated from the input side: pool i takes denom in_i
@@ -552,6 +577,9 @@ func GenMsg(rt *rapid.T, n *Node, v *view, a int) (kind string, msg sdk.Msg, ok 
 			for i := range ids {
 				rs = append(rs, pmtypes.SwapAmountOutRoute{PoolId: ids[i], TokenInDenom: in})
 				in = outs[i]
+			}
+			if rapid.IntRange(0, 2).Draw(rt, "viaGamm") == 0 {
+				return kind, &gammtypes.MsgSwapExactAmountOut{Sender: me.String(), Routes: rs, TokenInMaxAmount: osmomath.NewInt(900_000_000_000_000), TokenOut: coin(outs[len(outs)-1], amt)}, true
 			}
 			return kind, &pmtypes.MsgSwapExactAmountOut{Sender: me.String(), Routes: rs, TokenInMaxAmount: osmomath.NewInt(900_000_000_000_000), TokenOut: coin(outs[len(outs)-1], amt)}, true
 		default:
@@ -914,4 +942,60 @@ func GenBlock(rt *rapid.T, leader *Node) Block {
 		}
 	}
 	return b
+}
+
+// bootstrapAlloyedPool uploads the transmuter v3 contract shipped with the repository, creates an alloyed pool over
+// uion/usdc, funds it 1:1 and registers it (and share agreements on its two assets) through the governance-only messages.
+func bootstrapAlloyedPool(n *Node, ctx sdk.Context, run func(sdk.Msg)) {
+	a := n.App
+	cwAddr := a.AccountKeeper.GetModuleAddress(cwpooltypes.ModuleName)
+	params := a.WasmKeeper.GetParams(ctx)
+	if err := a.WasmKeeper.SetParams(ctx, wasmtypes.Params{CodeUploadAccess: wasmtypes.AccessConfig{Permission: wasmtypes.AccessTypeAnyOfAddresses, Addresses: []string{cwAddr.String()}}, InstantiateDefaultPermission: params.InstantiateDefaultPermission}); err != nil {
+		panic(err)
+	}
+	repo := os.Getenv("VERIF_REPO")
+	if repo == "" {
+		repo = "/repo"
+	}
+	code, err := os.ReadFile(repo + "/x/cosmwasmpool/bytecode/transmuter_v3.wasm")
+	if err != nil {
+		panic(err)
+	}
+	inst := wasmtypes.AccessConfig{Permission: wasmtypes.AccessTypeAnyOfAddresses, Addresses: []string{cwAddr.String()}}
+	codeID, _, err := a.ContractKeeper.Create(ctx, cwAddr, code, &inst)
+	if err != nil {
+		panic(fmt.Errorf("bootstrap: store transmuter code: %w", err))
+	}
+	a.CosmwasmPoolKeeper.WhitelistCodeId(ctx, codeID)
+	bz, err := json.Marshal(apptesting.InstantiateMsg{
+		PoolAssetConfigs:                []apptesting.AssetConfig{{Denom: "uion", NormalizationFactor: osmomath.OneInt()}, {Denom: "usdc", NormalizationFactor: osmomath.OneInt()}},
+		AlloyedAssetSubdenom:            "alloyed",
+		AlloyedAssetNormalizationFactor: "1",
+		Admin:                           Actor(0).String(),
+		Moderator:                       Actor(0).String(),
+	})
+	if err != nil {
+		panic(err)
+	}
+	// the contract creates the alloyed denom from its own (empty) balance: the pool predates the denom creation fee
+	tp := a.TokenFactoryKeeper.GetParams(ctx)
+	fee := tp.DenomCreationFee
+	tp.DenomCreationFee = nil
+	a.TokenFactoryKeeper.SetParams(ctx, tp)
+	poolID, err := a.PoolManagerKeeper.CreatePool(ctx, cwmodel.NewMsgCreateCosmWasmPool(codeID, Actor(0), bz))
+	if err != nil {
+		panic(fmt.Errorf("bootstrap: create alloyed pool: %w", err))
+	}
+	tp.DenomCreationFee = fee
+	a.TokenFactoryKeeper.SetParams(ctx, tp)
+	pool, err := a.CosmwasmPoolKeeper.GetPoolById(ctx, poolID)
+	if err != nil {
+		panic(err)
+	}
+	cosmwasm.MustExecute[transmuter.JoinPoolExecuteMsgRequest, cwmsg.EmptyStruct](ctx, a.ContractKeeper, pool.GetContractAddress(), Actor(0),
+		sdk.NewCoins(coin("uion", 3_000_000_000), coin("usdc", 3_000_000_000)), transmuter.JoinPoolExecuteMsgRequest{})
+	gov := a.AccountKeeper.GetModuleAddress(govtypes.ModuleName).String()
+	run(&pmtypes.MsgSetTakerFeeShareAgreementForDenom{Sender: gov, Denom: "uion", SkimPercent: dec("0.01"), SkimAddress: Actor(2).String()})
+	run(&pmtypes.MsgSetTakerFeeShareAgreementForDenom{Sender: gov, Denom: "usdc", SkimPercent: dec("0.02"), SkimAddress: Actor(3).String()})
+	run(&pmtypes.MsgSetRegisteredAlloyedPool{Sender: gov, PoolId: poolID})
 }
